@@ -221,6 +221,25 @@ static uint32_t nc_sdo_write(uint16_t idx, uint8_t sub, uint32_t val, int len)
     }
     return 0xFFFFFFFFu;
 }
+/* segmented SDO download of n <= 7 bytes (one segment), size announced or not; returns 0 if confirmed, else the abort code (0xFFFFFFFF: no or odd answer) */
+static uint32_t nc_sdo_write_seg(uint16_t idx, uint8_t sub, const uint8_t *data, int n, int announce)
+{
+    uint32_t id = 0x580 + Node.NodeId; uint8_t d[7] = { 0x5A, 0x5A, 0x5A, 0x5A, 0x5A, 0x5A, 0x5A }; int first = OBS.ntx, ok = 0;
+    memcpy(d, data, (size_t)n);
+    w_rx8(&Node, 0x600 + Node.NodeId, (uint8_t)(0x20 | (announce ? 1 : 0)), (uint8_t)idx, (uint8_t)(idx >> 8), sub, (uint8_t)(announce ? n : 0), 0, 0, 0);
+    for (int i = first; i < OBS.ntx && i < W_MAX_TX; i++) if (OBS.tx[i].id == id) {
+        if (OBS.tx[i].d[0] == 0x60) ok = 1;
+        if (OBS.tx[i].d[0] == 0x80) return w_get32(OBS.tx[i].d + 4);
+    }
+    if (!ok) return 0xFFFFFFFFu;
+    first = OBS.ntx;
+    w_rx8(&Node, 0x600 + Node.NodeId, (uint8_t)(0x01 | ((7 - n) << 1)), d[0], d[1], d[2], d[3], d[4], d[5], d[6]);
+    for (int i = first; i < OBS.ntx && i < W_MAX_TX; i++) if (OBS.tx[i].id == id) {
+        if (OBS.tx[i].d[0] == 0x20) return 0;
+        if (OBS.tx[i].d[0] == 0x80) return w_get32(OBS.tx[i].d + 4);
+    }
+    return 0xFFFFFFFFu;
+}
 /* expedited SDO upload; returns 0 and value, else abort code */
 static uint32_t nc_sdo_read(uint16_t idx, uint8_t sub, uint32_t *val)
 {
